@@ -80,6 +80,9 @@ func NewUniverse() *Universe {
 	return &Universe{ByType: map[reflect.Type]*Struct{}, names: map[string]int{}}
 }
 
+// TyOf derives the model type of any Go type the generator can emit.
+func (u *Universe) TyOf(t reflect.Type) (*Ty, error) { return u.tyOf(t) }
+
 func (u *Universe) tyOf(t reflect.Type) (*Ty, error) {
 	switch t.Kind() {
 	case reflect.Bool:
@@ -661,6 +664,9 @@ func Norm(v reflect.Value, s *Struct) {
 		}
 	}
 }
+
+// NormValue applies Norm inside any value (vectors, maps, structs).
+func NormValue(v reflect.Value, ty *Ty) { normVal(v, ty) }
 
 func normVal(v reflect.Value, ty *Ty) {
 	switch ty.Kind {
